@@ -239,14 +239,10 @@ def stageK? (s : String) : Option (StageK Float) :=
     let toks := e.splitOn ","
     let (c, rest) ← Driver.C07.cond? (toks.length + 1) toks
     if rest.isEmpty then some (.labelFilter c) else none
-  | ["P", "json"] => some (.parser .json)
-  | ["P", "logfmt"] => some (.parser .logfmt)
-  | ["P", "jsonp", ps] => do some (.parser (.jsonParams (← (ps.splitOn ",").mapM ahead?)))
-  | ["P", "logfmtp", ps] => do
-    let fs ← if ps = "_" then some [] else (ps.splitOn ",").mapM (fun kv => match kv.splitOn "=" with
-      | [k, v] => do some (← ofHex k, ← ofHex v)
-      | _ => none)
-    some (.parser (.logfmtParams fs))
+  | ["P", "json"] => do some (.parser (← planParser .json []))
+  | ["P", "logfmt"] => do some (.parser (← planParser .logfmt []))
+  | ["P", "jsonp", ps] => do some (.parser (← planParser .json (← (ps.splitOn ",").mapM ahead?)))
+  | ["P", "logfmtp", ps] => do some (.parser (← planParser .logfmt (← (ps.splitOn ",").mapM ahead?)))
   | ["LF", ops] => do
     some (.labelFormat (← (ops.splitOn ",").mapM (fun o => match o.splitOn "." with
       | ["c", l, v] => do some (FormatOp.const (← ofHex l) (← ofHex v))
